@@ -168,7 +168,10 @@ class ProcessExecutor:
         """Cancel all running futures and immediately terminate their execution."""
         future_process_pairs = list(self._running_id_to_future_and_process.values())
         for future, process in future_process_pairs:
-            process.terminate()
+            # The process was never started if we were interrupted
+            # while starting it.
+            if process.is_alive():
+                process.terminate()
             future.cancel()
             del self._running_id_to_future_and_process[future.id]
 
